@@ -200,6 +200,10 @@ def gen_events(pid, tier, seed):
                 {"k": "f", "repr": repr(math.pi)}, {"k": "f", "repr": "123456789012345678"}]
         bases_b = [J.E_, gen.q(2), gen.q(1, 2), gen.q(10), fl(2), {"k": "f", "repr": "2.718281828"}, {"k": "f", "repr": repr(math.nextafter(math.e, 3))},
                    {"k": "f", "repr": "2.7182818"}, {"k": "f", "repr": repr(math.nextafter(math.e, 0))}]
+        # names the constructor must refuse: if one is accepted all the same, its printed form has to round-trip like any other
+        for n in ["x\n", "a b", "x\"y", "x\\", "a-b", "x\ny", "\n"]:
+            pr.append(dict(Ex(J.Var(n)), maybe_illegal=True))
+            pr.append(dict(Ex(J.Add(J.Var(n), gen.Y)), maybe_illegal=True))
         for n in names:
             pr.append(Ex(J.Var(n)))
             pr.append(Ex(J.KUn("NthPower", J.Var(n), 2)))
@@ -320,7 +324,13 @@ def run_impl(ev):
                 a, f = realize(e["o"], k), realize(e["f"])
                 e.update(raised=False, eq=bool(a == f) or bool(f == a), ne=bool(a != f) and bool(f != a))
             elif kind == "print":
-                o = realize(e["o"], k)
+                try:
+                    o = realize(e["o"], k)
+                except Exception:
+                    if e["o"].get("maybe_illegal"):
+                        e["kind"] = "skip"
+                        continue
+                    raise
                 r, s = repr(o), str(o)
                 okind = e["o"]["kind"]
                 names = e["o"].get("names") if okind == "Point" else (e["o"]["pt"]["names"] if okind == "Located" else [])
